@@ -7,7 +7,7 @@ TAGS = ['senter', 'sexit', 'setflag', 'tfin']
 RULE = ('(a) scope trees: nested (until-)scopes (depth <= 3, <= 3 children each, volatile or delayed), bodies and children that '
         'sleep/raise (regular and privileged types)/return, cancels from inside and from a separate activity after t time units '
         'and k postponements, deadlines and flags on a coarse time grid, everything wrapped in handlers that log what they catch; '
-        '(b) random valid whole-API programs (no usage errors); (c) scope trees started by the real usim.run(.., till=T) with T on the grid; non-trivial = an until-scope was entered')
+        '(b) random valid whole-API programs (no usage errors); (c) scope trees started by the real usim.run(.., till=T) with T on the grid; (d) one activity subscribed twice to the same flag (nested until-blocks, an until-block around a wait that is given up), the inner subscription ending first; non-trivial = an until-scope was entered')
 
 
 #: known finding F10: until(a | b) / until(a & b) never fire (connectives have no subscription path)
@@ -40,7 +40,30 @@ def extra(sc):
     return [('C07till', dsl.t2s(t))] if t is not None else []
 
 
-SOURCES = [scopesuite.scope_tree, scopesuite.valid_scenario, with_till]
+def same_notification(rng):
+    """one activity holds two subscriptions to the same notification object at once - `until(flag)` around a nested `until(flag)`
+    or around an `await flag` that is given up after a while - and the inner one ends first; when the flag is set later, the
+    outer block must still be interrupted there"""
+    from fractions import Fraction as F
+    f = rng.randrange(2)
+    d = rng.choice([F(1, 2), 1, 2])
+    k = rng.random()
+    if k < 0.4:
+        inner = [['scope', 1, ['cond', ['flag', f]], ['sleep', d], ['log', 2]]]
+    elif k < 0.8:
+        inner = [['scope', 1, ['delay', d], ['await', ['flag', f]], ['log', 3]]]
+    else:
+        inner = [['scope', 1, ['cond', ['flag', f]], ['scope', 2, ['delay', d], ['await', ['flag', f]]], ['log', 4]]]
+    t_set = d + rng.choice([1, 2, 3])
+    outer = ['prog', ['sleep', rng.choice([0, F(1, 2)])], ['scope', 0, ['cond', ['flag', f]]] + inner + [['log', 5], ['sleep', 20], ['log', 6]], ['log', 7]]
+    roots = [outer, ['prog', ['sleep', t_set + rng.choice([0, F(1, 2)])], ['set', f, True]]]
+    if rng.random() < 0.5:
+        roots.append(['prog', ['scope', 3, ['cond', ['flag', f]], ['sleep', 30]], ['log', 8]])
+    rng.shuffle(roots)
+    return ['scenario', ['debug', 1], ['start', 0], ['flags', 2], ['locks', 0], ['roots'] + roots]
+
+
+SOURCES = [scopesuite.scope_tree, scopesuite.valid_scenario, with_till, same_notification]
 
 
 def run(tier, seed, drv):
